@@ -398,8 +398,9 @@ def jobs(tier):
         for vec in STACK_VECS:
             for k in range(2):
                 J.append(Job("H1_analyze:stack3:%s:%d" % (vec, k), "h_analyze", {"family": "stack3", "vec": vec, "part": [k, 2, 6]}, 300, "H1_analyze"))
-        for k in range(6):
-            J.append(Job("H1_analyze:degenerate2:default:%d" % k, "h_analyze", {"family": "degenerate2", "vec": "default", "texts": 2, "part": [k, 6, 10]}, 300, "H1_analyze"))
+        for vec in ("default", "none"):          # blank / zero-extent glyphs take their own route through analyze (the "empty" lines), on both sides of the boxes_flow split
+            for k in range(6):
+                J.append(Job("H1_analyze:degenerate2:%s:%d" % (vec, k), "h_analyze", {"family": "degenerate2", "vec": vec, "texts": 2, "part": [k, 6, 10]}, 300, "H1_analyze"))
     else:
         for vec in VECS:
             for k in range(4):
